@@ -23,7 +23,11 @@ pub fn opt(key: &str) -> Option<String> {
 pub struct SplitMix64(pub u64);
 impl SplitMix64 {
     pub fn new(seed: u64) -> Self {
-        Self(seed.wrapping_mul(0x9E37_79B9_7F4A_7C15).wrapping_add(0x1234_5678_9ABC_DEF1))
+        // scramble the seed so that neighbouring seeds give unrelated streams
+        let mut z = seed.wrapping_add(0x1234_5678_9ABC_DEF1);
+        z = (z ^ (z >> 30)).wrapping_mul(0xBF58_476D_1CE4_E5B9);
+        z = (z ^ (z >> 27)).wrapping_mul(0x94D0_49BB_1331_11EB);
+        Self(z ^ (z >> 31))
     }
     pub fn next_u64(&mut self) -> u64 {
         self.0 = self.0.wrapping_add(0x9E37_79B9_7F4A_7C15);
